@@ -152,6 +152,49 @@ theorem C16_transform_shape (rot : Stack Rat → Stack Rat → Except Err (List 
         subst this
         exact ⟨cm, cf, rfl, rfl, rfl, rfl⟩
 
+/-! ## A masked fit depends only on the masked atoms -/
+
+theorem to3d_selectMask (mk : List Bool) (c sel : Coords Rat) (h : c.selectMask mk = .ok sel) :
+    c.to3d.mapM (selectMask mk) = .ok sel.to3d := by
+  cases c with
+  | single pts =>
+    simp only [Coords.selectMask, bind, Except.bind, pure, Except.pure] at h
+    cases h1 : selectMask mk pts with
+    | error e => simp [h1] at h
+    | ok q =>
+      simp only [h1, Except.ok.injEq] at h
+      subst h
+      simp [Coords.to3d, h1, bind, Except.bind, pure, Except.pure]
+  | stack X =>
+    simp only [Coords.selectMask, bind, Except.bind, pure, Except.pure] at h
+    cases h1 : X.mapM (selectMask mk) with
+    | error e => simp [h1] at h
+    | ok Y =>
+      simp only [h1, Except.ok.injEq] at h
+      subst h
+      simp [Coords.to3d, h1]
+
+/-- **The transformation of a masked fit is the transformation of the fit of the selected atoms
+alone** (`superimpose(fixed, mobile, atom_mask)` builds the same `AffineTransformation` as
+`superimpose(fixed[..., mask, :], mobile[..., mask, :])`), for every rotation routine. -/
+theorem C16_mask_only_selected (rot : Stack Rat → Stack Rat → Except Err (List (M3 Rat)))
+    (mk : List Bool) (fixed mobile fixedSel mobileSel : Coords Rat)
+    (hf : fixed.selectMask mk = .ok fixedSel) (hm : mobile.selectMask mk = .ok mobileSel) :
+    superimposeTransform rot fixed mobile (some mk) = superimposeTransform rot fixedSel mobileSel none := by
+  unfold superimposeTransform
+  simp only [to3d_selectMask mk fixed fixedSel hf, to3d_selectMask mk mobile mobileSel hm, bind, Except.bind,
+    pure, Except.pure]
+
+/-- Hence atoms outside the mask do not matter: two inputs that agree on the masked atoms get the
+same transformation, whatever the other atoms are. -/
+theorem C16_mask_unselected_irrelevant (rot : Stack Rat → Stack Rat → Except Err (List (M3 Rat)))
+    (mk : List Bool) (fixed mobile fixed' mobile' fixedSel mobileSel : Coords Rat)
+    (hf : fixed.selectMask mk = .ok fixedSel) (hm : mobile.selectMask mk = .ok mobileSel)
+    (hf' : fixed'.selectMask mk = .ok fixedSel) (hm' : mobile'.selectMask mk = .ok mobileSel) :
+    superimposeTransform rot fixed mobile (some mk) = superimposeTransform rot fixed' mobile' (some mk) := by
+  rw [C16_mask_only_selected rot mk fixed mobile fixedSel mobileSel hf hm,
+    C16_mask_only_selected rot mk fixed' mobile' fixedSel mobileSel hf' hm']
+
 /-! ## The reflection correction yields a proper rotation -/
 
 /-- `det V = ±1 → det W = ±1 → det (correct V W) = 1`: after `v[:, -1] *= -1` (performed iff
@@ -581,6 +624,9 @@ example : IsSVD (M3.diag ⟨3, 2, -1⟩ : M3 ℚ) M3.one flipD ⟨3, 2, 1⟩ :=
 example : (correct (M3.one : M3 ℚ) flipD).inner (M3.diag ⟨3, 2, -1⟩) = 4 := by
   simp only [correct, flipD, M3.det, M3.flipLastCol, M3.one, M3.mul, M3.inner, M3.diag, V3.dot, M3.c0, M3.c1, M3.c2]
   norm_num
+-- a mask really selects: the second atom is dropped
+example : (Coords.single [⟨1, 2, 3⟩, ⟨9, 9, 9⟩, ⟨4, 5, 6⟩]).selectMask [true, false, true]
+    = .ok (.single [⟨1, 2, 3⟩, ⟨4, 5, 6⟩]) := by decide +kernel
 -- centroids exist for non-empty sets, so `C16_centroid_optimal_translation` is not vacuous
 example : centroid [⟨0, 0, 0⟩, ⟨2, 4, 6⟩] = .ok ⟨1, 2, 3⟩ := by decide +kernel
 -- the outlier loop really removes an anchor and stops at `min_anchors`
